@@ -302,6 +302,25 @@ def canon_idioms(e: ast.AST) -> ast.AST:
     class T(ast.NodeTransformer):
         def visit_Compare(self, node):
             self.generic_visit(node)
+            # over the integers:  len(x) + 1 > n,  n < len(x) + 1  ->  not (len(x) < n) ;  len(x) + 1 <= n,  n >= len(x) + 1  ->  len(x) < n
+            if len(node.ops) == 1 and isinstance(node.ops[0], (ast.Gt, ast.LtE, ast.Lt, ast.GtE)):
+                def _len_plus_one(x):
+                    if isinstance(x, ast.BinOp) and isinstance(x.op, ast.Add):
+                        a_, b_ = x.left, x.right
+                        if isinstance(a_, ast.Constant):
+                            a_, b_ = b_, a_
+                        if isinstance(b_, ast.Constant) and b_.value == 1 and not isinstance(b_.value, bool) and isinstance(a_, ast.Call) and isinstance(a_.func, ast.Name) and a_.func.id == "len":
+                            return a_
+                    return None
+                l_, r_, op_ = node.left, node.comparators[0], type(node.ops[0])
+                ln, other, ge = None, None, None
+                if _len_plus_one(l_) is not None and op_ in (ast.Gt, ast.LtE):
+                    ln, other, ge = _len_plus_one(l_), r_, op_ is ast.Gt
+                elif _len_plus_one(r_) is not None and op_ in (ast.Lt, ast.GtE):
+                    ln, other, ge = _len_plus_one(r_), l_, op_ is ast.Lt
+                if ln is not None:
+                    lt = ast.Compare(left=ln, ops=[ast.Lt()], comparators=[other])
+                    return ast.fix_missing_locations(ast.copy_location(ast.UnaryOp(op=ast.Not(), operand=lt) if ge else lt, node))
             # s.find(x) >= 0 / != -1 / > -1  ->  x in s ;  s.find(x) < 0 / == -1  ->  x not in s ;  s.count(x) > 0 -> x in s
             if len(node.ops) == 1 and isinstance(node.left, ast.Call) and isinstance(node.left.func, ast.Attribute) and node.left.func.attr in ("find", "count") and len(node.left.args) == 1 and not node.left.keywords:
                 try:
